@@ -22,6 +22,12 @@ class Rec(t.NamedTuple):
 type ItemAlias = Item
 
 
+@dataclasses.dataclass
+class Order:  # string annotations, to be inherited across modules (mod_b binds `Item` to another class)
+    item: "Item"
+    items: "list[Item]"
+
+
 def unmarshal_here(ref, x):
     """Issue a string reference from *this* module."""
     import typelib
